@@ -2,27 +2,29 @@
    converter (top-level position of the spec) asked its capability and got True *)
 From Coq Require Import List NArith ZArith Bool Arith Lia.
 Import ListNotations.
-Require Import Base.Wire Base.PyStr C03.Model C01.Model.
+Require Import Base.Wire Base.PyStr C03.Model C01.Model C01.Denial.
 Open Scope N_scope.
 
-Lemma run_spec_app d mc l1 l2 s s2 :
-  run_spec d mc (l1 ++ l2) s = COk s2 ->
-  exists s1, run_spec d mc l1 s = COk s1 /\ run_spec d mc l2 s1 = COk s2.
+Lemma run_spec_app d mc nc l1 l2 s s2 :
+  run_spec d mc nc (l1 ++ l2) s = COk s2 ->
+  exists s1, run_spec d mc nc l1 s = COk s1 /\ run_spec d mc nc l2 s1 = COk s2.
 Proof.
   revert s. induction l1 as [|c l1 IH]; intros s H; cbn [app run_spec] in *.
   - exists s. split; [reflexivity|exact H].
-  - destruct (run_conv d mc c s) as [s'|x s'] eqn:Ec.
+  - destruct (run_conv d mc nc c s) as [s'|x s'] eqn:Ec.
     + apply IH. exact H.
     + destruct x; discriminate.
 Qed.
 
-Lemma run_gate_ok d mc g s s' :
-  run_gate d mc g s = COk s' ->
+Lemma run_gate_ok d mc nc g s s' :
+  run_gate d mc nc g s = COk s' ->
   exists cap, gate_cap mc g s = (COk s', Ok cap) /\ checkCapability d cap (gate_flags g) = Ok true.
 Proof.
   unfold run_gate. destruct (gate_cap mc g s) as [[s1|x s1] [cap|e]]; try discriminate.
   destruct (checkCapability d cap (gate_flags g)) as [[|]|e] eqn:Ec; try discriminate.
-  intro H. inversion H; subst. exists cap. split; [reflexivity|exact Ec].
+  - intro H. inversion H; subst. exists cap. split; [reflexivity|exact Ec].
+  - (* refused: errorNoCapability(cap, Raise=True) raises for every message text, so the converter cannot return *)
+    destruct (converter_denial_raises nc) as [t Ht]. rewrite Ht. discriminate.
 Qed.
 
 Lemma gate_cap_fail mc g s x s' r : gate_cap mc g s = (CFail x s', r) -> x = XArg.
@@ -43,64 +45,65 @@ Proof.
   - destruct coe; discriminate.
 Qed.
 
-Lemma body_spec_ok d chan m :
-  In EvBody (call_method d chan m) ->
+Lemma body_spec_ok d chan nc m :
+  In EvBody (call_method d chan nc m) ->
   match m with
   | None => True
-  | Some (spec, extra) => exists s, run_spec d chan spec (CS None false) = COk s /\ extra = false /\ s_err s = false
+  | Some (spec, extra) => exists s, run_spec d chan nc spec (CS None false) = COk s /\ extra = false /\ s_err s = false
   end.
 Proof.
   destruct m as [[spec extra]|]; [|trivial]. cbn [call_method].
-  destruct (run_spec d chan spec (CS None false)) as [s|x s] eqn:Er.
+  destruct (run_spec d chan nc spec (CS None false)) as [s|x s] eqn:Er.
   - destruct extra; [cbn; intros [H|[]]; discriminate|].
     destruct (s_err s) eqn:Ee; [cbn; intros []|]. intros _. exists s. auto.
   - intros [H|[]]. destruct x as [ev| | |e]; cbn in H; try discriminate.
     subst ev. exfalso.
     (* a converter never raises Error carrying EvBody *)
     clear -Er. revert Er. generalize (CS None false).
-    assert (Hc : forall c s0 s1, run_conv d chan c s0 <> CFail (XErr EvBody) s1).
+    assert (Hc : forall c s0 s1, run_conv d chan nc c s0 <> CFail (XErr EvBody) s1).
     { induction c; intros s0 s1; cbn [run_conv].
       - unfold run_gate. destruct (gate_cap chan g s0) as [[sa|xa sa] [capa|ea]] eqn:Eg.
-        + destruct (checkCapability d capa (gate_flags g)) as [[|]|]; discriminate.
+        + destruct (checkCapability d capa (gate_flags g)) as [[|]|]; try discriminate.
+          destruct (errorNoCapability nc (Some true)); discriminate.
         + discriminate.
         + apply gate_cap_fail in Eg. subst xa. discriminate.
         + apply gate_cap_fail in Eg. subst xa. discriminate.
       - destruct o; discriminate.
       - unfold getChannel_conv. destruct (s_chan s0); [discriminate|]. destruct argchan; [discriminate|].
         destruct chan; discriminate.
-      - destruct (run_conv d chan c s0) as [?|x ?] eqn:E; [discriminate|].
+      - destruct (run_conv d chan nc c s0) as [?|x ?] eqn:E; [discriminate|].
         destruct x; discriminate.
-      - destruct (run_conv d chan c s0) as [?|x ?] eqn:E; [discriminate|].
+      - destruct (run_conv d chan nc c s0) as [?|x ?] eqn:E; [discriminate|].
         destruct x; try discriminate; intro H; inversion H; subst; eapply IHc; eassumption.
-      - destruct (run_conv d chan c1 s0) as [?|x ?] eqn:E; [discriminate|]. apply IHc2.
-      - destruct hasargs; [|discriminate]. destruct (run_conv d chan c s0) as [?|x ?]; discriminate.
+      - destruct (run_conv d chan nc c1 s0) as [?|x ?] eqn:E; [discriminate|]. apply IHc2.
+      - destruct hasargs; [|discriminate]. destruct (run_conv d chan nc c s0) as [?|x ?]; discriminate.
       - apply loop_it_nobody. exact IHc. }
     induction spec as [|c l IHl]; intros s0; cbn [run_spec]; [discriminate|].
-    destruct (run_conv d chan c s0) as [?|x0 ?] eqn:E; [apply IHl|].
+    destruct (run_conv d chan nc c s0) as [?|x0 ?] eqn:E; [apply IHl|].
     destruct x0; try discriminate. intro H. inversion H; subst. eapply Hc; eassumption.
 Qed.
 
-Lemma trace_body_method d chan plugin canon command pre m :
-  In EvBody (callCommand_trace d chan plugin canon command pre m) -> In EvBody (call_method d chan m) /\ pre = false.
+Lemma trace_body_method d chan nc plugin canon command pre m :
+  In EvBody (callCommand_trace d chan nc plugin canon command pre m) -> In EvBody (call_method d chan nc m) /\ pre = false.
 Proof.
   unfold callCommand_trace. destruct (gate d chan plugin canon command) as [[v|]|e].
-  - cbn. intros [H|[]]; discriminate.
+  - rewrite gate_refusal_always. cbn. intros [H|[]]; discriminate.
   - destruct pre; [cbn; intros []|]. auto.
   - cbn. intros [H|[]]; discriminate.
 Qed.
 
 (* C01_converters *)
-Theorem converters_checked d chan plugin canon command pre l1 g l2 extra :
-  In EvBody (callCommand_trace d chan plugin canon command pre (Some (l1 ++ Gate g :: l2, extra))) ->
+Theorem converters_checked d chan nc plugin canon command pre l1 g l2 extra :
+  In EvBody (callCommand_trace d chan nc plugin canon command pre (Some (l1 ++ Gate g :: l2, extra))) ->
   exists s s' cap,
-    run_spec d chan l1 (CS None false) = COk s /\          (* the state in which converter g runs *)
+    run_spec d chan nc l1 (CS None false) = COk s /\          (* the state in which converter g runs *)
     gate_cap chan g s = (COk s', Ok cap) /\                (* the capability it asks for *)
     checkCapability d cap (gate_flags g) = Ok true.        (* ... was answered True *)
 Proof.
   intro H. apply trace_body_method in H as [H _]. apply body_spec_ok in H as [sf [Hr _]].
   apply run_spec_app in Hr as [s [H1 H2]]. cbn [run_spec run_conv] in H2.
-  destruct (run_gate d chan g s) as [s'|x s'] eqn:Eg.
-  - destruct (run_gate_ok _ _ _ _ _ Eg) as [cap [Hc Hk]]. exists s, s', cap. auto.
+  destruct (run_gate d chan nc g s) as [s'|x s'] eqn:Eg.
+  - destruct (run_gate_ok _ _ _ _ _ _ Eg) as [cap [Hc Hk]]. exists s, s', cap. auto.
   - destruct x; discriminate.
 Qed.
 
@@ -108,9 +111,9 @@ Qed.
 Lemma canon_owner : canonicalCapability OWNER = Ok OWNER. Proof. vm_compute. reflexivity. Qed.
 Lemma canon_admin : canonicalCapability ADMIN = Ok ADMIN. Proof. vm_compute. reflexivity. Qed.
 
-Corollary owner_converter d chan plugin canon command pre spec extra :
+Corollary owner_converter d chan nc plugin canon command pre spec extra :
   In (Gate GOwner) spec ->
-  In EvBody (callCommand_trace d chan plugin canon command pre (Some (spec, extra))) ->
+  In EvBody (callCommand_trace d chan nc plugin canon command pre (Some (spec, extra))) ->
   holds d OWNER = Ok true.
 Proof.
   intros Hin H. apply in_split in Hin as [l1 [l2 E]]. subst spec.
@@ -118,9 +121,9 @@ Proof.
   cbn [gate_cap] in Hc. rewrite canon_owner in Hc. inversion Hc; subst. exact Hk.
 Qed.
 
-Corollary admin_converter d chan plugin canon command pre spec extra :
+Corollary admin_converter d chan nc plugin canon command pre spec extra :
   In (Gate GAdmin) spec ->
-  In EvBody (callCommand_trace d chan plugin canon command pre (Some (spec, extra))) ->
+  In EvBody (callCommand_trace d chan nc plugin canon command pre (Some (spec, extra))) ->
   holds d ADMIN = Ok true.
 Proof.
   intros Hin H. apply in_split in Hin as [l1 [l2 E]]. subst spec.
@@ -128,9 +131,9 @@ Proof.
   cbn [gate_cap] in Hc. rewrite canon_admin in Hc. inversion Hc; subst. exact Hk.
 Qed.
 
-Corollary cap_converter d chan plugin canon command pre spec extra c :
+Corollary cap_converter d chan nc plugin canon command pre spec extra c :
   In (Gate (GCap c)) spec ->
-  In EvBody (callCommand_trace d chan plugin canon command pre (Some (spec, extra))) ->
+  In EvBody (callCommand_trace d chan nc plugin canon command pre (Some (spec, extra))) ->
   isCapability c = true /\ holds d (lower c) = Ok true.
 Proof.
   intros Hin H. apply in_split in Hin as [l1 [l2 E]]. subst spec.
@@ -140,9 +143,9 @@ Proof.
 Qed.
 
 (* a channel gate asks for "<channel>,<cap>" of the channel commands.getChannel selected *)
-Corollary chan_converter d chan plugin canon command pre l1 l2 extra c a :
-  In EvBody (callCommand_trace d chan plugin canon command pre (Some (l1 ++ Gate (GChan c a) :: l2, extra))) ->
-  exists s ch, run_spec d chan l1 (CS None false) = COk s /\
+Corollary chan_converter d chan nc plugin canon command pre l1 l2 extra c a :
+  In EvBody (callCommand_trace d chan nc plugin canon command pre (Some (l1 ++ Gate (GChan c a) :: l2, extra))) ->
+  exists s ch, run_spec d chan nc l1 (CS None false) = COk s /\
     getChannel_conv chan a s = COk (CS (Some ch) (s_err s)) /\
     holds d (ch ++ [COMMA] ++ lower c) = Ok true.
 Proof.
@@ -165,18 +168,18 @@ Definition db_unknown : db := Db None false [] [ANTIOWNER] [] true.
 Definition PL : str := [112].   Definition CM : str := [99].
 Example optional_does_not_gate :
   holds db_unknown OWNER = Ok false /\
-  callCommand_trace db_unknown None PL PL [CM] false (Some ([Optional (Gate GOwner)], false)) = [EvBody] /\
-  callCommand_trace db_unknown None PL PL [CM] false (Some ([First2 (Gate GOwner) (Opaque OOk)], false)) = [EvBody] /\
-  callCommand_trace db_unknown None PL PL [CM] false (Some ([Rest true (Gate GOwner)], false)) = [] /\
-  callCommand_trace db_unknown None PL PL [CM] false (Some ([Loop 0 false (Gate GOwner)], false)) = [EvBody] /\
-  callCommand_trace db_unknown None PL PL [CM] false (Some ([Loop 1 true (Gate GOwner)], false)) = [EvBody] /\
-  callCommand_trace db_unknown None PL PL [CM] false (Some ([Gate GOwner], false)) = [EvNoCap (PStr OWNER)] /\
-  callCommand_trace db_unknown None PL PL [CM] false (Some ([Additional (Gate GOwner)], false)) = [EvNoCap (PStr OWNER)].
+  callCommand_trace db_unknown None [] PL PL [CM] false (Some ([Optional (Gate GOwner)], false)) = [EvBody] /\
+  callCommand_trace db_unknown None [] PL PL [CM] false (Some ([First2 (Gate GOwner) (Opaque OOk)], false)) = [EvBody] /\
+  callCommand_trace db_unknown None [] PL PL [CM] false (Some ([Rest true (Gate GOwner)], false)) = [] /\
+  callCommand_trace db_unknown None [] PL PL [CM] false (Some ([Loop 0 false (Gate GOwner)], false)) = [EvBody] /\
+  callCommand_trace db_unknown None [] PL PL [CM] false (Some ([Loop 1 true (Gate GOwner)], false)) = [EvBody] /\
+  callCommand_trace db_unknown None [] PL PL [CM] false (Some ([Gate GOwner], false)) = [EvNoCap (PStr OWNER)] /\
+  callCommand_trace db_unknown None [] PL PL [CM] false (Some ([Additional (Gate GOwner)], false)) = [EvNoCap (PStr OWNER)].
 Proof. vm_compute. repeat split; reflexivity. Qed.
 
 (* non-vacuity of converters_checked: an owner passes 'owner' and ('checkChannelCapability','op') *)
 Definition db_owner : db := Db (Some (User [OWNER] false false)) true [] [ANTIOWNER] [] true.
 Example converters_nonvacuous :
-  callCommand_trace db_owner (Some [35;99]) PL PL [CM] false
+  callCommand_trace db_owner (Some [35;99]) [] PL PL [CM] false
      (Some ([Opaque OOk; Gate GOwner; Gate (GChan OP None)], false)) = [EvBody].
 Proof. vm_compute. reflexivity. Qed.
